@@ -1025,6 +1025,8 @@ def run(ctx, tier):
     results += seek_searches(ctx)
     import c07
     results += c07.scan_skips_empty(ctx, rule='C08.scan-skips-empty')
+    results += c07.reresolve(ctx, rule='C08.reresolve')
+    results += c07.id_form_opaque(ctx, rule='C08.id-form-opaque')
     results += start_compare(ctx)
     results += no_underflow(ctx)
     results += filter_total(ctx)
@@ -1039,9 +1041,9 @@ def run(ctx, tier):
     return dict(
         results=results, stats=dict(ctx.stats),
         explanation=(
-            'Order and exactly-once of iteration are binary-search and index arithmetic and are (seek-reset) also: nothing sets the flag again behind the reset; (start-compare) also: no path through a payload start arm skips the search for the bound. NOT decided. Decided: (bounds-total) Range::next consults both bounds, the Included and '
+            'Order and exactly-once of iteration are binary-search and index arithmetic and are NOT decided. Decided: (bounds-total) Range::next consults both bounds, the Included and '
             'Excluded variants each have their own arm that reads the payload and they do not decide with the same comparison, Unbounded is separate; (start-compare) each start arm '
             'compares the current entry\'s key with the bound (seek may rest on either neighbour); (no-underflow) no plain `len - k` without a dominating length test is reachable from '
             'the iterator API; (filter-total) the bucket-only and pair-only filters return None only when the inner iterator is exhausted; (seek-reset) installing a new search stack '
-            'clears next_called; (index-bounds) a cursor index is advanced only under a test against the node length; (stack-never-emptied) the search stack is never emptied once iteration started (repeated next() after the end is harmless); (index-agreement) page-backed and node-backed lookups resolve a missing key identically.'),
+            'clears next_called and nothing sets it again behind the reset; (start-compare, second clause) no path through a payload start arm skips the search for the bound; (reresolve) a cursor keeps ids and indices, never a page or node;  (index-bounds) a cursor index is advanced only under a test against the node length; (stack-never-emptied) the search stack is never emptied once iteration started (repeated next() after the end is harmless); (index-agreement) page-backed and node-backed lookups resolve a missing key identically.'),
         assumptions=['Cursor::seek positions on the key or an immediate neighbour (property statement)'])
